@@ -4,6 +4,7 @@
   CODE-DEPENDENT.
 -/
 import O1722.Refine.Can
+import O1722.Refine.CanBrief
 import O1722.Refine.PropsVss
 import O1722.Props.Can
 open O1722 O1722.C
@@ -48,6 +49,50 @@ theorem C06_code (p frameId src n variant : Nat) (hp0 : p ≠ 0) (hpb : p + 7000
   have hH : Spec.can.headerLen = 16 := rfl
   rw [hlen, hH] at c2 c3
   rw [hlen] at c4
+  refine ⟨_, h, ?_, c2, c3, c4⟩
+  intro k hkn
+  have hk' : k < (m.read src n).length := by rw [hlen]; exact hkn
+  have := c1 k hk'
+  rw [hH] at this
+  rw [this]
+  exact read_getElem m src n k hkn
+end
+
+section
+variable (e : Endian) (rom : Nat → Byte) (glob : String → Nat) (tb : Nat)
+  (hrom : RomTable rom tb Gen.canBrief.table) (hglob : glob "Avtp_CanBriefFieldDesc" = tb)
+include hrom hglob
+
+/-- **C06 on the C text (abbreviated ACF-CAN builder)**, including the returned padded length. -/
+theorem C06_code_brief (p frameId src n variant : Nat) (hp0 : p ≠ 0) (hpb : p + 70000 ≤ 18446744073709551616)
+    (hf : frameId < 4294967296) (hvar : variant < 4294967296) (hn : n < 65536)
+    (hsrc : n = 0 ∨ src ≠ 0) (hdis : n = 0 ∨ p + 8 + n ≤ src ∨ src + n ≤ p + 8) (m : Mem) :
+    ∃ r, (callFn (mkEnv e rom glob) 60 "Avtp_CanBrief_SetPayload" [p, frameId, src, n, variant] ⟨m, []⟩).map
+          (fun x => (x.1, x.2.mem)) = some (8 + n + padOf n, r)
+      ∧ (∀ k, k < n → r (p + 8 + k) = m (src + k))
+      ∧ (∀ k, k < padOf n → r (p + 8 + n + k) = 0)
+      ∧ (∀ a, (a < p ∨ p + 8 + n + padOf n ≤ a) → r a = m a)
+      ∧ (∀ j fs, Spec.canBrief.fields[j]? = some fs →
+          specGet r p fs.first fs.width = expected Spec.canBrief p m j fs (canOps Spec.canBrief canIdxBrief frameId variant n)) := by
+  have hvalid : ∀ d ∈ Gen.canBrief.table, d.Valid := by decide
+  have hk : ∀ (i : Nat) (name : String) (fs : Spec.FieldSpec) (d : Desc), Spec.canBrief.fieldNamed name = some fs →
+      Gen.canBrief.table[i]? = some d → i < 11 → descMatches d fs = true →
+      ∀ m p v, setField e Gen.canBrief.table 11 m (some p) i v = setNamed Spec.canBrief m p name v :=
+    fun i name fs d h1 h2 h3 h4 m p v => setField_eq_setNamed Spec.canBrief Gen.canBrief.table 11 i name fs d h1 h2 h3 h4 e m p v
+  have h := Avtp_CanBrief_SetPayload_refines e rom glob Gen.canBrief.table tb hrom hvalid hglob (by decide)
+    (hk 1 "ACF_MSG_LENGTH" _ _ rfl rfl (by decide) (by decide))
+    (hk 2 "PAD" _ _ rfl rfl (by decide) (by decide))
+    (hk 5 "EFF" _ _ rfl rfl (by decide) (by decide))
+    (hk 7 "FDF" _ _ rfl rfl (by decide) (by decide))
+    (hk 10 "CAN_IDENTIFIER" _ _ rfl rfl (by decide) (by decide))
+    p frameId src n variant hp0 hpb hf hvar hn hsrc hdis m
+  have hlen : (m.read src n).length = n := read_length m n src
+  obtain ⟨c1, c2, c3, c4, c5⟩ := C06_builder Spec.canBrief canIdxBrief can_layout_ok.2 (by decide) m p frameId (m.read src n) variant
+    (by rw [hlen]; omega)
+  have hH : Spec.canBrief.headerLen = 8 := rfl
+  rw [hlen, hH] at c2 c3 c5
+  rw [hlen] at c4
+  rw [c5] at h
   refine ⟨_, h, ?_, c2, c3, c4⟩
   intro k hkn
   have hk' : k < (m.read src n).length := by rw [hlen]; exact hkn
